@@ -10,14 +10,19 @@ Search (direct oracles, implementation outputs only; the ranking tuple is RE-STA
                or a rule with an equal tuple stands before it; same for the subcategory among matching rules that set one
   permutation  category / subcategory change under a permutation of the file although no two candidates tie
   tags         tags differ from the union over all matching rules / change under a permutation
+               (constraint kinds = the kinds of amount/date/source/field identifiers the rule USES; deviations explained by the
+               code counting keyword SUBSTRINGS of the expression text carry the known-finding signatures below)
 """
 import itertools
 import json
 import random
+import re
 
 from engine_common import *
 
 COQ_FILES = ENGINE_COQ + ['C09/Proofs.v', 'C09/Props.v']
+SIG_QUOTED = 'C09/constraint-keyword-counted-inside-pattern-text'
+SIG_WEEKDAY = 'C09/weekday-counted-as-two-constraint-kinds'
 
 
 def regen_gen():
@@ -71,7 +76,7 @@ def gen_c09_file(rnd):
 
 def gen_cases(seed, tier):
     rnd = random.Random(seed * 104729 + 9)
-    n = 300 if tier == 'quick' else 8000
+    n = 300 if tier == 'quick' else 2500
     cases = []
     for i in range(n):
         if i % 3 == 2:
@@ -91,7 +96,27 @@ def gen_cases(seed, tier):
 
 # ---------------------------------------------------------------------------------------------------
 def tuples(jr):
+    """The ranking tuple as the property words it (constraint kinds = kinds the rule USES)."""
+    return [tuple(spec_semantic(r['match'], r['priority'])) for r in jr['rules']]
+
+
+def tuples_textual(jr):
+    """The code's reading: constraint kinds = keyword substrings of the expression text."""
     return [tuple(spec_independent(r['match'], r['priority'])) for r in jr['rules']]
+
+
+def kinds_signature(jr, idxs, tup, txt):
+    """Known-finding signature when a deviation is explained by substring counting of constraint keywords."""
+    culprits = [i for i in idxs if tup[i] != txt[i]]
+    if not culprits:
+        return None, culprits
+    bare = lambda m: re.sub(r"'[^']*'", "''", re.sub(r'"[^"]*"', '""', m))
+    quoted = [i for i in culprits if spec_independent(bare(jr['rules'][i]['match']), 0)[2] != txt[i][2]]
+    if quoted:
+        return SIG_QUOTED, culprits
+    if any('weekday' in jr['rules'][i]['match'].lower() for i in culprits):
+        return SIG_WEEKDAY, culprits
+    return None, culprits
 
 
 def first_max_index(idxs, tup):
@@ -114,40 +139,41 @@ def judge_base(c, jr, ti):
     out = []
     if 'oracle' not in tr or any_abort(tr):
         return out
-    tup = tuples(jr)
+    tup, txt = tuples(jr), tuples_textual(jr)
     ms = tr['ms']
     cat, sub, m = cands(jr, tr)
-    for r, tpl in zip(jr['rules'], tup):
-        if tuple(r['spec']) != tpl:
+    for r, a, b in zip(jr['rules'], tup, txt):
+        got = tuple(r['spec'])
+        if (got[0], got[1], got[3]) != (a[0], a[1], a[3]) or got[2] not in (a[2], b[2]):
             out.append(('tuple', {'why': 'calculate_specificity differs from (priority, pattern conditions, constraint kinds, pattern length)',
                                   'rule': r['name'], 'match': r['match'], 'priority': r['priority'], 'implementation': r['spec'],
-                                  'expected': list(tpl)}, None))
+                                  'expected': list(a), 'expected_with_substring_counting': list(b)}, None))
             break
-    ew = first_max_index(cat, tup)
-    if ew is None:
-        if ms['matched'] or ms['category'] or ms['matched_rule'] is not None:
-            out.append(('lexmax', {'why': 'no matching categorizing rule, yet a category was assigned', 'observed': ms}, None))
-    else:
-        got = ms['matched_rule']
-        if got != ew or ms['category'] != jr['rules'][ew]['category'] or not ms['matched']:
-            why = 'category winner is not the first lexicographic maximum among matching categorizing rules'
-            if got in cat and tup[got] == tup[ew]:
-                why = 'tie between equal tuples did not go to the earlier rule'
-            elif got in cat and tup[got] < tup[ew]:
-                why = 'category winner ranks below another matching categorizing rule'
-            out.append(('lexmax', {'why': why, 'expected_rule': jr['rules'][ew]['name'], 'expected_tuple': list(tup[ew]),
-                                   'observed_rule': None if got is None else jr['rules'][got]['name'],
-                                   'observed_tuple': None if got is None else list(tup[got]),
-                                   'candidates': {jr['rules'][i]['name']: list(tup[i]) for i in cat}}, None))
-    es = first_max_index(sub, tup)
-    if es is None:
-        if ms['subcategory'] or ms['subcategory_rule'] is not None:
-            out.append(('lexmax', {'why': 'no matching rule sets a subcategory, yet one was assigned', 'observed': ms}, None))
-    elif ms['subcategory_rule'] != es or ms['subcategory'] != jr['rules'][es]['subcategory']:
-        got = ms['subcategory_rule']
-        out.append(('lexmax', {'why': 'subcategory winner is not the first lexicographic maximum among matching rules that set one',
-                               'expected_rule': jr['rules'][es]['name'], 'observed_rule': None if got is None else jr['rules'][got]['name'],
-                               'candidates': {jr['rules'][i]['name']: list(tup[i]) for i in sub}}, None))
+    for what, idxs, got, val, key in (('category', cat, ms['matched_rule'], ms['category'], 'category'),
+                                      ('subcategory', sub, ms['subcategory_rule'], ms['subcategory'], 'subcategory')):
+        ew = first_max_index(idxs, tup)
+        if ew is None:
+            if val or got is not None or (what == 'category' and ms['matched']):
+                out.append(('lexmax', {'why': f'no matching rule sets a {what}, yet one was assigned', 'observed': ms}, None))
+            continue
+        if got == ew and val == jr['rules'][ew][key] and (what != 'category' or ms['matched']):
+            continue
+        sig, culprits = (None, [])
+        why = f'{what} winner is not the first lexicographic maximum among the matching rules that set a {what}'
+        if got in idxs and got == first_max_index(idxs, txt):
+            sig, culprits = kinds_signature(jr, idxs, tup, txt)
+            why = (f'{what}: winner differs from the most specific rule when constraint kinds are the kinds the rule USES '
+                   '(keyword substrings of the expression text are counted instead)')
+        elif got in idxs and tup[got] == tup[ew]:
+            why = f'{what}: tie between equal tuples did not go to the earlier rule'
+        elif got in idxs and tup[got] < tup[ew]:
+            why = f'{what} winner ranks below another matching rule that sets a {what}'
+        out.append(('lexmax', {'why': why, 'expected_rule': jr['rules'][ew]['name'], 'expected_tuple': list(tup[ew]),
+                               'observed_rule': None if got is None else jr['rules'][got]['name'],
+                               'observed_tuple': None if got is None else list(tup[got]),
+                               'candidates': {jr['rules'][i]['name']: list(tup[i]) for i in idxs},
+                               'candidates_with_substring_counting': {jr['rules'][i]['name']: list(txt[i]) for i in idxs if txt[i] != tup[i]},
+                               'expressions': {jr['rules'][i]['name']: jr['rules'][i]['match'] for i in culprits}}, sig))
     exp = expected_tags(jr, tr)
     if set(ms['tags']) - {''} != exp:
         out.append(('tags', {'why': 'most_specific: tags are not the union over all matching rules', 'expected': sorted(exp),
@@ -160,11 +186,11 @@ def variants(ci, c, jr, rnd, tier):
     n = len(c['file']['rules'])
     if n < 2:
         return []
-    if tier == 'thorough' and n <= 5:
+    if tier == 'thorough' and n <= 4:
         perms = [list(p) for p in itertools.permutations(range(n))][1:]
     else:
         perms = [list(reversed(range(n)))]
-        for _ in range(2):
+        for _ in range(2 if tier == 'quick' else 5):
             p = list(range(n))
             rnd.shuffle(p)
             if p not in perms and p != list(range(n)):
@@ -177,34 +203,30 @@ def judge_variant(c, jr, req, vr):
     out = []
     if 'parse_error' in vr or 'harness_error' in vr:
         return [(0, 'harness', {'why': 'variant did not load', 'detail': vr}, None)]
-    tup = tuples(jr)
+    tup, txt = tuples(jr), tuples_textual(jr)
     for ti, (tr, vt) in enumerate(zip(jr['txns'], vr['txns'])):
         if 'oracle' not in tr or any_abort(tr) or 'crash' in vt['ms']:
             continue
         cat, sub, m = cands(jr, tr)
         a, b = tr['ms'], vt['ms']
         nm = lambda J, i: None if i is None else J['rules'][i]['name']
-        tie_free_cat = len({tup[i] for i in cat}) == len(cat)
-        tie_free_sub = len({tup[i] for i in sub}) == len(sub)
-        if tie_free_cat and (a['category'], a['matched'], nm(jr, a['matched_rule'])) != (b['category'], b['matched'], nm(vr, b['matched_rule'])):
+        free = lambda idxs: len({tup[i] for i in idxs}) == len(idxs) and len({txt[i] for i in idxs}) == len(idxs)
+        if free(cat) and (a['category'], a['matched'], nm(jr, a['matched_rule'])) != (b['category'], b['matched'], nm(vr, b['matched_rule'])):
             out.append((ti, 'permutation', {'why': 'category changes under a tie-free permutation of the rules', 'perm': req['perm'],
                                             'base': [a['category'], nm(jr, a['matched_rule'])],
                                             'permuted': [b['category'], nm(vr, b['matched_rule'])]}, None))
-        if tie_free_sub and (a['subcategory'], nm(jr, a['subcategory_rule'])) != (b['subcategory'], nm(vr, b['subcategory_rule'])):
+        if free(sub) and (a['subcategory'], nm(jr, a['subcategory_rule'])) != (b['subcategory'], nm(vr, b['subcategory_rule'])):
             out.append((ti, 'permutation', {'why': 'subcategory changes under a tie-free permutation of the rules', 'perm': req['perm'],
                                             'base': [a['subcategory'], nm(jr, a['subcategory_rule'])],
                                             'permuted': [b['subcategory'], nm(vr, b['subcategory_rule'])]}, None))
-        if not tie_free_cat and a['matched_rule'] is not None and b['matched_rule'] is not None:
-            # with ties the winner must still be the earliest of the maximal ones IN THE PERMUTED ORDER
-            order = req['perm']
-            pos = {orig: k for k, orig in enumerate(order)}
-            best = None
-            for i in sorted(cat, key=lambda i: pos[i]):
-                if best is None or tup[i] > tup[best]:
-                    best = i
-            if nm(vr, b['matched_rule']) != jr['rules'][best]['name']:
+        if not free(cat) and a['matched_rule'] is not None and b['matched_rule'] is not None:
+            # with ties the winner must be the earliest of the maximal ones IN THE PERMUTED ORDER
+            pos = {orig: k for k, orig in enumerate(req['perm'])}
+            order = sorted(cat, key=lambda i: pos[i])
+            ok_names = {jr['rules'][first_max_index(order, t)]['name'] for t in (tup, txt)}
+            if nm(vr, b['matched_rule']) not in ok_names:
                 out.append((ti, 'permutation', {'why': 'after permuting, the tie did not go to the earlier rule of the permuted file',
-                                                'perm': req['perm'], 'expected': jr['rules'][best]['name'],
+                                                'perm': req['perm'], 'expected': sorted(ok_names),
                                                 'observed': nm(vr, b['matched_rule'])}, None))
         if set(a['tags']) != set(b['tags']):
             out.append((ti, 'tags', {'why': 'tag set changes under a permutation of the rules', 'perm': req['perm'], 'base': a['tags'],
@@ -227,13 +249,13 @@ def evaluate(cases, rnd, tier='quick'):
     return base, fails, {'permutation': len(reqs)}
 
 
-def still_fails_factory(txn, name, seed):
+def still_fails_factory(txn, name, sig, seed):
     def still(f):
         try:
             _, fails, _ = evaluate([{'kind': 'rules', 'file': f, 'txns': [txn]}], random.Random(seed), 'thorough')
         except Exception:  # noqa
             return False
-        return any(x[2] == name for x in fails)
+        return any(x[2] == name and x[4] == sig for x in fails)
     return still
 
 
@@ -244,7 +266,8 @@ def main(tier):
         'from the implementation\'s own evaluator, rule by rule',
         'calculate_specificity/_extract_pattern_length are translated from the source by tools/engine2coq.py on every run; '
         'str.lower/count/in and the two quote-scanning findall calls are library functions of Engine/StrLib.v (ASCII case mapping)',
-        'the ranking tuple is textual, as in the code and the property: keywords are counted in the expression text',
+        'the MODEL ranks by the translated calculate_specificity (constraint keywords counted as substrings of the expression text); '
+        'the direct oracle ranks by the tuple the property words (constraint kinds the rule uses) — the two differ only in the listed findings',
         'rule files are taken as parsed by the implementation; rule_mode plumbing (config_loader) is C11']
     tfails = regen_engine_gen()
     res = run.proof_step(COQ_FILES, extra_trusted=[
@@ -271,12 +294,12 @@ def main(tier):
         ci, ti, _, det, _ = min(fl, key=lambda x: len(json.dumps(cases[x[0]]['file'])))
         c = cases[ci]
         small, case_out = c['file'], c
-        still = still_fails_factory(c['txns'][ti], name, run.seed)
+        still = still_fails_factory(c['txns'][ti], name, sig, run.seed)
         if still(small):
             small = shrink_rules(small, still)
             case_out = {'kind': 'rules', 'file': small, 'txns': [c['txns'][ti]]}
             _, f2, _ = evaluate([case_out], random.Random(run.seed), 'thorough')
-            f2 = [x for x in f2 if x[2] == name]
+            f2 = [x for x in f2 if x[2] == name and x[4] == sig]
             if f2:
                 det = f2[0][3]
         obj = {'kind': 'counterexample', 'oracle': name, 'case': case_out,
@@ -328,7 +351,7 @@ def main(tier):
         'rule': 'distinct (rule file, transaction) pairs with >= 2 matching categorizing rules that have different tuples; 2/3 of the files '
                 'are built so that most rules match the same description and differ in priority / number of pattern functions / '
                 'constraints / pattern length / quote style, 1/3 come from the general C01 generator; every file is also run reversed '
-                'and under 2 random permutations (thorough: all permutations up to 5 rules)',
+                'and under 2 random permutations (thorough: all permutations up to 4 rules, 6 otherwise)',
         'samples': [{'text': render_rules(cases[0]['file']), 'txn': cases[0]['txns'][0]},
                     {'text': render_rules(cases[2]['file']), 'txn': cases[2]['txns'][0]}],
         'matching_categorizing_rules_histogram': ncat_hist, 'index_of_winning_rule_histogram': win_hist,
